@@ -12,6 +12,7 @@ import Hv.Driver.Vmx
 import Hv.Driver.Meta
 import Hv.Driver.Envelope
 import Hv.Driver.Configs
+import Hv.Driver.Resolve
 open Hv Hv.Driver
 
 def dispatch (st : St) (toks : List String) : String :=
@@ -33,6 +34,7 @@ def dispatch (st : St) (toks : List String) : String :=
     else if cmd.startsWith "meta." then metaCmd st toks
     else if cmd.startsWith "env." then envelopeCmd st toks
     else if cmd.startsWith "cfg." then configsCmd st toks
+    else if cmd.startsWith "resolve." then resolveCmd st toks
     else "bad-cmd"
 
 partial def loop (h : IO.FS.Stream) (out : IO.FS.Stream) (st : St) : IO Unit := do
